@@ -217,7 +217,8 @@ func genHistC01(rt *rapid.T) history {
 }
 
 func genHistC02(rt *rapid.T) history {
-	return genHistory(rt, hgenOpts{MaxLen: 60, MaxSessions: 6, Orphans: false, Cleanup: "", Strays: false})
+	cl := pick(rt, "cleanupmode", []string{"", "far", "between"})
+	return genHistory(rt, hgenOpts{MaxLen: 60, MaxSessions: 6, Orphans: false, Cleanup: cl, Strays: false})
 }
 
 func genHistC04(rt *rapid.T) history {
@@ -275,20 +276,20 @@ func enumReuse(maxEv1, maxEv2, maxStray int, yield func(history) bool) {
 	for n1 := 0; n1 <= maxEv1; n1++ {
 		rec1 := []hop{{K: "open", S: 1, P: 1}}
 		for k := 0; k < n1; k++ {
-			rec1 = append(rec1, hop{K: "ev", S: 1, T: "USER_START"})
+			rec1 = append(rec1, hop{K: "ev", S: 1, T: "USER_START", P: 1})
 		}
-		rec1 = append(rec1, hop{K: "disp", S: 1})
+		rec1 = append(rec1, hop{K: "disp", S: 1, P: 1})
 		var phase1 [][]hop
 		perms(rec1, []hop{{K: "login", P: 1}}, nil, &phase1)
 		for n2 := 0; n2 <= maxEv2; n2++ {
 			for ns := 0; ns <= maxStray; ns++ {
 				rec2 := []hop{{K: "open", S: 2, P: 1}}
 				for k := 0; k < n2; k++ {
-					rec2 = append(rec2, hop{K: "ev", S: 2, T: "USER_END"})
+					rec2 = append(rec2, hop{K: "ev", S: 2, T: "USER_END", P: 1})
 				}
 				var strays []hop
 				for k := 0; k < ns; k++ {
-					strays = append(strays, hop{K: "ev", S: 1, T: "CRED_ACQ"})
+					strays = append(strays, hop{K: "ev", S: 1, T: "CRED_ACQ", P: 1})
 				}
 				var p2a, phase2 [][]hop
 				perms(rec2, []hop{{K: "login", P: 1}}, nil, &p2a)
